@@ -23,6 +23,7 @@ H4  a callable target derivative is called with the final state and its return v
     used as the target.
 """
 import numpy as np
+import z3
 
 import oqupy
 import oqupy.gradient as gr
@@ -31,7 +32,8 @@ import oqupy.system_dynamics as sd
 from oqupy.control import Control
 
 from vf.core import Case, Ob
-from vf import lib
+from vf import lib, sym
+from vf.sym import S
 from vf.poly import ob_eq_poly
 from vf.pointcheck import Guard
 
@@ -394,6 +396,140 @@ class H4(Case):
 
 
 # --------------------------------------------------------------------------
+# H5: one ParameterizedSystem object used in two computations with different dt
+# --------------------------------------------------------------------------
+class ExpmAtoms:
+    """stand-in for scipy.linalg.expm that is a FUNCTION of its argument: in the symbolic run every
+    argument that is new (after z3's simplifier) gets a matrix of fresh real variables, equal arguments
+    share it (Ackermannised uninterpreted function); in the concrete runs the truncated series
+    1 + A + A^2/2.  Every call is recorded."""
+
+    def __init__(self, inp):
+        self.inp = inp
+        self.atoms = {}
+        self.args = []
+
+    def __call__(self, m):
+        m = np.array(m)
+        self.args.append(m)
+        if not self.inp.symbolic:
+            return np.identity(m.shape[0]) + m + (m @ m) / 2
+        key = []
+        keep = []
+        for idx in np.ndindex(*m.shape):
+            x = S.of(m[idx])
+            for part in (x.re, x.im):
+                t = z3.simplify(sym.zr(part))
+                keep.append(t)
+                key.append(t.get_id())
+        key = tuple(key)
+        if key not in self.atoms:
+            k = len(self.atoms)
+            out = np.empty(m.shape, dtype=object)
+            for idx in np.ndindex(*m.shape):
+                out[idx] = S(z3.Real("expm%d_%s" % (k, "_".join(map(str, idx)))))
+            self.atoms[key] = (keep, out)
+        return self.atoms[key][1].copy()
+
+
+def commutator_oracle(inp, H):
+    """-i (H rho - rho H) in the row-major vectorisation, entry by entry"""
+    d = H.shape[0]
+    L = np.empty((d * d, d * d), dtype=complex if inp.mode == "real" else object)
+    for i in range(d):
+        for j in range(d):
+            for k in range(d):
+                for l in range(d):
+                    v = inp.zero()
+                    if j == l:
+                        v = v + H[i, k]
+                    if i == k:
+                        v = v - H[l, j]
+                    L[i * d + j, k * d + l] = v * (-1j)
+    return L
+
+
+class H5(Case):
+    """history: the SAME ParameterizedSystem object (real class, real get_propagators / liouvillian /
+    get_propagator_derivatives) serves a computation with dt1 and then one with dt2 and repeated parameter
+    rows; the second result must be that of a freshly built equal object"""
+    functions = ("ParameterizedSystem.__init__", "ParameterizedSystem.get_propagators", "ParameterizedSystem.liouvillian",
+                 "ParameterizedSystem.get_propagator_derivatives", "system._liouvillian", "gradient.state_gradient",
+                 "gradient.compute_gradient_and_dynamics", "gradient._chain_rule")
+    stubs = ("scipy.linalg.expm -> Ackermannised uninterpreted matrix function of its argument (truncated series in the concrete runs), calls recorded",
+             "user Hamiltonian H(x) = H0 + x H1 with symbolic matrices; user-supplied propagator derivatives affine in (x, dt)",
+             "numpy zeros(dtype='complex128') in oqupy.gradient -> object array (NpProxy)")
+    env = {"np_proxy_modules": NP_PROXY}
+    timeout_s = 300
+
+    def __init__(self, N=2, bond=1, dts=(0.2, 0.1)):
+        self.N, self.bond, self.dts = N, bond, dts
+        self.id = "H5/system_reused_dt%s_then_dt%s_N%d_b%d" % (dts[0], dts[1], N, bond)
+        self.bounds = {"d": 2, "N": N, "bond": bond, "dt": list(dts), "M": 1}
+
+    def run(self, inp):
+        d, N = 2, self.N
+        D = d * d
+        dt1, dt2 = self.dts
+        H0, H1 = inp.arr("H0", (d, d)), inp.arr("H1", (d, d))
+        K0, K1, K2 = inp.arr("K0", (D, D)), inp.arr("K1", (D, D)), inp.arr("K2", (D, D))
+
+        def ham(x):
+            return H0 + x * H1
+
+        def user_pd(dt_, x):
+            return [K0 + dt_ * K2 + x[0] * K1]
+
+        # repeated parameter rows: rows 2.. reuse the objects of rows 0, 1
+        base = inp.arr("u", (2, 1))
+        params = np.empty((2 * N, 1), dtype=base.dtype)
+        for r in range(2 * N):
+            params[r, 0] = base[r % 2, 0]
+        rho0 = inp.arr("r", (d, d))
+        target = inp.arr("t", (d, d))
+        pt1 = build_pt(inp, "a", d, N, self.bond, 4, dt=dt1)[0]
+        pt2 = build_pt(inp, "b", d, N, self.bond, 4, dt=dt2)[0]
+        ex = ExpmAtoms(inp)
+        from vf.env import patched
+        with patched({"oqupy.system.expm": ex}):
+            used = oqupy.ParameterizedSystem(ham, propagator_derivatives=user_pd)
+            gr.state_gradient(used, rho0, target.copy(), [pt1], params, progress_type="silent")      # history
+            del ex.args[:]
+            second = gr.state_gradient(used, rho0, target.copy(), [pt2], params, progress_type="silent")
+            args_second = list(ex.args)
+            fresh = oqupy.ParameterizedSystem(ham, propagator_derivatives=user_pd)
+            ref = gr.state_gradient(fresh, rho0, target.copy(), [pt2], params, progress_type="silent")
+            obs = []
+            # every generator exponentiated in the second computation is L(parameter row) * dt2 / 2
+            gens = [commutator_oracle(inp, ham(base[r, 0])) * (dt2 / 2.0) for r in range(2)]
+            for k, a in enumerate(args_second):
+                alts = [Ob.eq("x", a, g) for g in gens]
+                if inp.symbolic:
+                    cond = sym.SB(z3.Or(*[z3.Not(o.violation_formula()) for o in alts]))
+                else:
+                    cond = any(not o.violated_concrete(1e-9)[0] for o in alts)
+                obs.append(Ob.holds("second computation: expm argument %d is L(row)*dt2/2" % k, cond))
+            # propagators handed out by the used object for dt2
+            props = used.get_propagators(dt2, params)
+            for step in range(N):
+                p1, p2 = props(step)
+                obs.append(Ob.eq("used object, dt2, step %d: first half-step propagator" % step, p1, ex(gens[0])))
+                obs.append(Ob.eq("used object, dt2, step %d: second half-step propagator" % step, p2, ex(gens[1])))
+            # propagator derivatives handed out by the used object for dt2
+            pd = used.get_propagator_derivatives(dt2, params)
+            for step in range(N):
+                a, b = pd(step)
+                obs.append(Ob.eq("used object, dt2, step %d: first half-step derivative" % step, a[0], K0 + dt2 * K2 + base[0, 0] * K1))
+                obs.append(Ob.eq("used object, dt2, step %d: second half-step derivative" % step, b[0], K0 + dt2 * K2 + base[1, 0] * K1))
+        a, b = lib.dynamics_states(second["dynamics"]), lib.dynamics_states(ref["dynamics"])
+        obs.append(Ob.holds("number of states", len(a) == N + 1 and len(b) == N + 1))
+        for n in range(min(len(a), len(b))):
+            obs.append(Ob.eq("second computation, state %d == fresh object" % n, a[n], b[n]))
+        obs.append(Ob.eq("second computation, gradient == fresh object", second["gradient"], ref["gradient"]))
+        return Guard(inp).all(obs)
+
+
+# --------------------------------------------------------------------------
 def cases(tier):
     cs = [
         H1(1, 2, 2, som=True),
@@ -404,6 +540,7 @@ def cases(tier):
         H2(2, 1), H2(2, 2),
         H3(1, 2, 2, 4, "inner"), H3(2, 2, 2, 4, "none"),
         H4(1, 2, 2),
+        H5(2, 1),
     ]
     if tier == "thorough":
         # two/three environments with rank-4 tensors and N = 3 (4^13 monomials per entry) are out of reach
@@ -415,6 +552,6 @@ def cases(tier):
             H1(2, 2, 2, part="nonfinal", timeout_s=900, som=True),          # expected: known finding
             H1(3, 2, 1, part="final", timeout_s=900, som=True),
             H1(2, 3, 2, rank=3, timeout_s=900, som=True),
-            H2(3, 2), H3(2, 3, 2, 3, "ends"), H3(1, 3, 2, 4, "ends"), H4(2, 2, 1),
+            H2(3, 2), H3(2, 3, 2, 3, "ends"), H3(1, 3, 2, 4, "ends"), H4(2, 2, 1), H5(2, 2, dts=(0.1, 0.25)),
         ]
     return cs
